@@ -9,6 +9,8 @@ import VerifModel.Driver.Axis
 import VerifModel.Driver.Output
 import VerifModel.Driver.Text
 import VerifModel.Driver.Args
+import VerifModel.Driver.Diagram
+import VerifModel.Driver.Nc
 /-
   verifdrv — line-protocol driver: one operation per input line, one canonical
   reply line.  `ERR bad-op` for anything a handler does not recognise.
@@ -16,7 +18,7 @@ import VerifModel.Driver.Args
 open VerifModel
 
 def handlers : List (List String → Option String) :=
-  [Driver.Cmp.handle, Driver.Cont.handle, Driver.Det.handle, Driver.Data.handle, Driver.Clean.handle, Driver.Agg.handle, Driver.Scripts.handle, Driver.Axis.handle, Driver.Output.handle, Driver.Text.handle, Driver.Args.handle]
+  [Driver.Cmp.handle, Driver.Cont.handle, Driver.Det.handle, Driver.Data.handle, Driver.Clean.handle, Driver.Agg.handle, Driver.Scripts.handle, Driver.Axis.handle, Driver.Output.handle, Driver.Text.handle, Driver.Args.handle, Driver.Diagram.handle, Driver.Nc.handle]
 
 def step (line : String) : String :=
   let args := (line.trimAscii.toString.splitOn " ").filter (· ≠ "")
